@@ -232,12 +232,6 @@ Definition val_no_rem (pk : packet) : val :=
 
 Definition is_ping (pk : packet) : bool := (fh_type (pk_fh pk) =? 12) || (fh_type (pk_fh pk) =? 13).
 
-(* a decoded packet the encoder refuses: packet identifier 0 where one is required *)
-Definition KF_C26_pid0 (pk : packet) : bool :=
-  (pk_packet_id pk =? 0)
-  && (((fh_type (pk_fh pk) =? 3) && (0 <? fh_qos (pk_fh pk)))
-      || (fh_type (pk_fh pk) =? 8) || (fh_type (pk_fh pk) =? 10)).
-
 (* case = VL [VN 2; mods; packet; VN enc_outcome; VB enc; VN dec_outcome; dec_projection; VB unread]
           a generated Packet value through the real encoder, its output through the real decoder
         | VL [VN 3; VN version; VB stream; VN d1; proj1; mods; VN enc_outcome; VB enc; VN d2; proj2; VB unread2]
@@ -305,6 +299,8 @@ Definition rt_engine (c : val) : val :=
                       (* a packet outside wf_packet that the encoder accepted: the second decoding must
                          give the first one back (apart from the remaining length) *)
                       if negb (wf_packet pk) && (eo =? 0) then
+                        if negb (d2 =? 0) then verdict 1 (tg ++ tag "-lost") true []
+                        else
                         match packet_of_val m proj2 with
                         | Some pk2 => if beq_val (val_no_rem pk2) (val_no_rem pk) then r
                                       else verdict 1 (tg ++ tag "-changed") true []
